@@ -18,6 +18,7 @@ import ast
 import re
 from typing import Any, List, Optional, Set
 
+from engine.srcmatch import U
 from engine.forms import FOLDED, NONE, NONE_IF_EMPTY, FormEnv
 from engine.model import AnalysisError, Program, dotted, walk_no_nested
 
@@ -68,30 +69,30 @@ def run(ctx: Any, prog: Program) -> None:
                         idx = index_of(n.func.value.value)
                         k = n.func.value.slice
                         ctx.check('C07.I1', key_ok(idx, env.form(k)), mod, n,
-                                  f'{idx}[...] is mutated with key `{ast.unparse(k)}` which is not in the index normal form '
+                                  f'{idx}[...] is mutated with key `{U(k)}` which is not in the index normal form '
                                   f'({"casefolded" if idx == "by_class" else "casefolded, empty -> None"}); the entry goes stale / is filed under a key lookups never use',
-                                  func=qual, text=f'{idx}[{ast.unparse(k)}].{n.func.attr}')
+                                  func=qual, text=f'{idx}[{U(k)}].{n.func.attr}')
                     # _remove_copyset(X.by_*, K, e)
                     elif isinstance(n, ast.Call) and dotted(n.func) == '_remove_copyset' and len(n.args) == 3 and index_of(n.args[0]):
                         idx = index_of(n.args[0])
                         k = n.args[1]
                         ctx.check('C07.I1', key_ok(idx, env.form(k)), mod, n,
-                                  f'_remove_copyset({idx}, `{ast.unparse(k)}`, ...) uses a key that is not in the index normal form; the old entry is not found and stays',
-                                  func=qual, text=f'_remove_copyset({idx}, {ast.unparse(k)})')
+                                  f'_remove_copyset({idx}, `{U(k)}`, ...) uses a key that is not in the index normal form; the old entry is not found and stays',
+                                  func=qual, text=f'_remove_copyset({idx}, {U(k)})')
                     elif isinstance(n, (ast.Assign, ast.Delete)):
                         for t in n.targets:
                             if isinstance(t, ast.Subscript) and index_of(t.value):
                                 idx = index_of(t.value)
                                 ctx.check('C07.I1', key_ok(idx, env.form(t.slice)), mod, n,
-                                          f'{idx}[{ast.unparse(t.slice)}] assigned/deleted with a key not in normal form', func=qual,
-                                          text=f'{type(n).__name__} {idx}[{ast.unparse(t.slice)}]')
+                                          f'{idx}[{U(t.slice)}] assigned/deleted with a key not in normal form', func=qual,
+                                          text=f'{type(n).__name__} {idx}[{U(t.slice)}]')
                     # reads: notes only
                     elif isinstance(n, ast.Subscript) and index_of(n.value) and isinstance(n.ctx, ast.Load):
                         par = mod.parents.get(n)
                         if isinstance(par, ast.Attribute) and par.attr in SET_MUT:
                             continue
                         if not key_ok(index_of(n.value), env.form(n.slice)):
-                            ctx.note(f'{mod.relpath}:{n.lineno} {qual}: read of {index_of(n.value)}[{ast.unparse(n.slice)}] with a key not known to be folded (lookup miss, not an index inconsistency)')
+                            ctx.note(f'{mod.relpath}:{n.lineno} {qual}: read of {index_of(n.value)}[{U(n.slice)}] with a key not known to be folded (lookup miss, not an index inconsistency)')
     # ---- I2 --------------------------------------------------------------------------------------------
     allowed = {'__init__', '__setitem__', '__delitem__'}
     for modname in prog.module_names():
@@ -132,7 +133,7 @@ def run(ctx: Any, prog: Program) -> None:
         child = node
         while p is not None and p is not fn:
             if isinstance(p, ast.If) and child in p.body:
-                out.append(ast.unparse(p.test))
+                out.append(U(p.test))
             child = p
             p = mod.parents.get(p)
         return out
@@ -141,11 +142,11 @@ def run(ctx: Any, prog: Program) -> None:
     # value (VMF.parse registers the parsed worldspawn with `worldspawn['classname'] = 'worldspawn'`; an entity added to the map after its
     # keys were set is indexed the same way), so nothing may return before them
     si_ = ent_methods['__setitem__']
-    arm_idx = next((i for i, st in enumerate(si_.body) if isinstance(st, ast.If) and "'classname'" in ast.unparse(st.test)), None)
+    arm_idx = next((i for i, st in enumerate(si_.body) if isinstance(st, ast.If) and "'classname'" in U(st.test)), None)
     if arm_idx is None:
         raise AnalysisError('Entity.__setitem__: index maintenance chain (`if key_fold == \'classname\'` ...) not found at top level')
     early = [r for st in si_.body[:arm_idx] for r in ast.walk(st) if isinstance(r, ast.Return)]
-    ctx.check('C07.I3', not early, vm, early[0] if early else si_, 'Entity.__setitem__ returns before the by_class / by_target maintenance' + (f' (when `{ast.unparse(vm.parents[early[0]].test)[:60]}`)' if early and isinstance(vm.parents.get(early[0]), ast.If) else '')
+    ctx.check('C07.I3', not early, vm, early[0] if early else si_, 'Entity.__setitem__ returns before the by_class / by_target maintenance' + (f' (when `{U(vm.parents[early[0]].test)[:60]}`)' if early and isinstance(vm.parents.get(early[0]), ast.If) else '')
               + ': an assignment that leaves the value unchanged must still (re-)register the entity - VMF.parse and add_ent-after-construction rely on it', func='Entity.__setitem__', text='__setitem__: index arms reached on every call')
     for name in ('__setitem__', '__delitem__'):
         fn = ent_methods[name]
@@ -155,11 +156,11 @@ def run(ctx: Any, prog: Program) -> None:
                 guards = guard_of(vm, fn, n)
                 ok = any('self in self.map.entities' in g or 'self is self.map.spawn' in g for g in guards)
                 ctx.check('C07.I3', ok, vm, n, f'index add in Entity.{name} is not guarded by `self in self.map.entities` / `self is self.map.spawn`: '
-                          f'an entity that is not in the map would be listed (guards: {guards})', text=f'{name}: guarded add {ast.unparse(n)[:60]}')
+                          f'an entity that is not in the map would be listed (guards: {guards})', text=f'{name}: guarded add {U(n)[:60]}')
         # each index arm removes the old entry before any add
         for n in walk_no_nested(fn):
             if isinstance(n, ast.If):
-                t = ast.unparse(n.test)
+                t = U(n.test)
                 for field, idx in (('classname', 'by_class'), ('targetname', 'by_target')):
                     if f"== '{field}'" in t and ' and ' not in t and ' or ' not in t:
                         if name == '__delitem__' and field == 'classname':
@@ -198,7 +199,7 @@ def run(ctx: Any, prog: Program) -> None:
                   f'VMF.{name} must update self.entities and both indexes together (list op: {has_list}, indexes: {sorted(touched)})', text=f'{name}: list + both indexes')
     # ---- I7: one-shot iterables --------------------------------------------------------------------------
     for name, fn in vmf_methods.items():
-        params = {a.arg: ast.unparse(a.annotation) for a in fn.args.args + fn.args.kwonlyargs if a.annotation is not None}
+        params = {a.arg: U(a.annotation) for a in fn.args.args + fn.args.kwonlyargs if a.annotation is not None}
         for pn, ann in params.items():
             if not re.search(r'\b(Iterable|Iterator|Generator)\b', ann):
                 continue
@@ -258,19 +259,19 @@ def run(ctx: Any, prog: Program) -> None:
                             ok = True
                         # canonicalising loop: `for k in self._keys: if k.casefold() == <folded key>: key = k; break` - afterwards `key` is the stored
                         # spelling whenever one matches case-insensitively, and otherwise no spelling of it is stored at all
-                        canon = any(isinstance(i, ast.If) and 'casefold' in ast.unparse(i.test) and l.target.id in {x.id for x in ast.walk(i.test) if isinstance(x, ast.Name)}
+                        canon = any(isinstance(i, ast.If) and 'casefold' in U(i.test) and l.target.id in {x.id for x in ast.walk(i.test) if isinstance(x, ast.Name)}
                                     and any(isinstance(x, ast.Assign) and any(dotted(t) == kname for t in x.targets) and dotted(x.value) == l.target.id for x in i.body)
                                     and isinstance(i.body[-1], ast.Break) for i in l.body if isinstance(i, ast.If))
                         if in_body and canon and not l.orelse:
                             ok = True
             if not ok:
                 why = why or 'the key expression is the caller\'s spelling (or a constant), not a spelling known to be stored'
-            ctx.check('C07.I8', ok, vm, n, f'Entity.{name}: `{ast.unparse(n)[:60]}` addresses the case-preserving key store with `{ast.unparse(key_expr)}`: {why or "stored spelling"}; '
+            ctx.check('C07.I8', ok, vm, n, f'Entity.{name}: `{U(n)[:60]}` addresses the case-preserving key store with `{U(key_expr)}`: {why or "stored spelling"}; '
                       'a key stored as "TargetName" is missed, so the previous value used to maintain the indexes is wrong', func=f'Entity.{name}',
-                      text=f'{name}: _keys access with {ast.unparse(key_expr)[:30]}')
+                      text=f'{name}: _keys access with {U(key_expr)[:30]}')
     # ---- I4 --------------------------------------------------------------------------------------------
     init = vmf_methods['__init__']
-    src = [ast.unparse(s) for s in walk_no_nested(init) if isinstance(s, (ast.Assign, ast.Expr))]
+    src = [U(s) for s in walk_no_nested(init) if isinstance(s, (ast.Assign, ast.Expr))]
     ok = any(s.replace('"', "'") == "self.spawn['classname'] = 'worldspawn'" for s in src)
     ctx.check('C07.I4', ok, vm, init, "VMF.__init__ must set self.spawn['classname'] = 'worldspawn' (registers it in by_class)", text='spawn classname registered')
     ok = any(s == 'self.by_target[None].add(self.spawn)' for s in src)
@@ -278,17 +279,17 @@ def run(ctx: Any, prog: Program) -> None:
     si = ent_methods['__setitem__']
     ok = False
     for n in walk_no_nested(si):
-        if isinstance(n, ast.If) and 'self is self.map.spawn' in ast.unparse(n.test):
+        if isinstance(n, ast.If) and 'self is self.map.spawn' in U(n.test):
             for m in ast.walk(n):
-                if isinstance(m, ast.If) and "!= 'worldspawn'" in ast.unparse(m.test) and any(isinstance(x, ast.Raise) for x in m.body):
+                if isinstance(m, ast.If) and "!= 'worldspawn'" in U(m.test) and any(isinstance(x, ast.Raise) for x in m.body):
                     ok = True
     ctx.check('C07.I4', ok, vm, si, 'the classname arm must refuse (raise) any class but worldspawn for the map spawn', text='spawn re-class refused')
     # the refusal happens after the old by_class entry was removed: before raising, the spawn must be registered again, either by
     # re-entering __setitem__ (self['classname'] = 'worldspawn') or by an explicit by_class['worldspawn'].add(self) next to the key-store revert
     for n in walk_no_nested(si):
-        if isinstance(n, ast.If) and 'self is self.map.spawn' in ast.unparse(n.test):
+        if isinstance(n, ast.If) and 'self is self.map.spawn' in U(n.test):
             for m in ast.walk(n):
-                if isinstance(m, ast.If) and "!= 'worldspawn'" in ast.unparse(m.test) and any(isinstance(x, ast.Raise) for x in m.body):
+                if isinstance(m, ast.If) and "!= 'worldspawn'" in U(m.test) and any(isinstance(x, ast.Raise) for x in m.body):
                     before = []
                     for st in m.body:
                         if isinstance(st, ast.Raise):
@@ -306,7 +307,7 @@ def run(ctx: Any, prog: Program) -> None:
     di = ent_methods['__delitem__']
     raise_line = None
     for n in walk_no_nested(di):
-        if isinstance(n, ast.If) and "== 'classname'" in ast.unparse(n.test) and any(isinstance(x, ast.Raise) for x in n.body):
+        if isinstance(n, ast.If) and "== 'classname'" in U(n.test) and any(isinstance(x, ast.Raise) for x in n.body):
             raise_line = n.lineno
     pops = [n.lineno for n in walk_no_nested(di) if isinstance(n, ast.Call) and isinstance(n.func, ast.Attribute) and n.func.attr == 'pop'
             and isinstance(n.func.value, ast.Attribute) and n.func.value.attr == '_keys']
@@ -315,7 +316,7 @@ def run(ctx: Any, prog: Program) -> None:
     # ---- I9: search() consults both indexes for a plain name ------------------------------------------------------------------------
     sf = vmf_methods['search']
     ctx.rule('C07.I9', 'search(): a plain name yields the by_target matches and the by_class matches (neither hides the other); a trailing * searches by_target by prefix', floor=3)
-    star = [n for n in sf.body if isinstance(n, ast.If) and "'*'" in ast.unparse(n.test)]
+    star = [n for n in sf.body if isinstance(n, ast.If) and "'*'" in U(n.test)]
     ctx.shape('C07.I9', len(star) == 1 and bool(star[0].orelse), vm, sf, "search() branches on a trailing '*' with an else arm for plain names", text='search wildcard split')
     if len(star) == 1 and star[0].orelse:
         def index_mentions(node: ast.AST) -> Set[str]:
@@ -333,7 +334,7 @@ def run(ctx: Any, prog: Program) -> None:
                 elif isinstance(n, ast.Assign):
                     srcs, tg = index_mentions(n.value), list(n.targets)
                     if any(isinstance(o, ast.BoolOp) and isinstance(o.op, ast.Or) and len(index_mentions(o)) == 2 for o in ast.walk(n.value)):
-                        ctx.check('C07.I9', False, vm, n, f'`{ast.unparse(n)[:80]}` picks the by_class matches only when no entity has that targetname: a name that is both a targetname and a classname '
+                        ctx.check('C07.I9', False, vm, n, f'`{U(n)[:80]}` picks the by_class matches only when no entity has that targetname: a name that is both a targetname and a classname '
                                   'loses its classname matches', text='search: indexes combined with `or`')
                 else:
                     continue
@@ -379,14 +380,14 @@ def run(ctx: Any, prog: Program) -> None:
             for n in walk_no_nested(fn):
                 if isinstance(n, ast.Assign) and any(isinstance(t, ast.Attribute) and t.attr == 'spawn' for t in n.targets):
                     tgt = next(t for t in n.targets if isinstance(t, ast.Attribute) and t.attr == 'spawn')
-                    base = ast.unparse(tgt.value)
+                    base = U(tgt.value)
                     removed = set()
                     for c in walk_no_nested(fn):
                         if isinstance(c, ast.Call) and dotted(c.func) == '_remove_copyset' and c.lineno < n.lineno and len(c.args) == 3 \
-                                and ast.unparse(c.args[2]) == f'{base}.spawn' and index_of(c.args[0]):
+                                and U(c.args[2]) == f'{base}.spawn' and index_of(c.args[0]):
                             removed.add(index_of(c.args[0]))
                     ctx.check('C07.I6', removed == set(INDEXES), vm, n,
-                              f'`{ast.unparse(n)[:60]}` replaces the map spawn; the previous spawn (registered by VMF.__init__) must first be removed from '
+                              f'`{U(n)[:60]}` replaces the map spawn; the previous spawn (registered by VMF.__init__) must first be removed from '
                               f'by_class and by_target (removed from: {sorted(removed)}) or it stays in the lookups as a ghost entity', func=qual,
                               text=f'{base}.spawn replaced')
 
